@@ -1,10 +1,14 @@
 (** C13 — results do not depend on how the game is written down. Proved: every order-insensitive
     ingredient is equivariant under renaming states and reordering transitions. The end-to-end claim
-    "within tolerance" is not a theorem (the in-place sweep order is not equivariant; known finding
-    K1-C13) and is covered by the metamorphic check. *)
+    "within tolerance" is false without a bound on the absorption time (the in-place sweep order is not
+    equivariant and the stopping rule bounds the residual only; known finding K1-C13); it is proved in
+    conditional form (C13_reports_within_tolerance: under an absorption-time certificate for each of the
+    two descriptions the two reports differ by at most threshold * certificate) and covered by the
+    metamorphic check. *)
 From Coq Require Import String List Arith Bool QArith Permutation Lia.
 From CR Require Import Model.Num Model.Outcome Model.Graph Model.Game
-     Proofs.GraphP Proofs.Laws Proofs.ReachQ Proofs.EquivP Proofs.EquivQ Proofs.EquivScan.
+     Proofs.GraphP Proofs.Laws Proofs.PipelineP Proofs.ReachQ Proofs.ReachQ2 Proofs.ErrBound Proofs.C04Q Proofs.ReachQ4
+     Proofs.EquivP Proofs.EquivQ Proofs.EquivScan Proofs.EquivTol.
 Import ListNotations.
 
 (* the backward search of the renamed game returns exactly the renamed states *)
@@ -59,6 +63,80 @@ Proof.
   intros T K L rho m0 l l' P. split; [apply scan_max_equivariant|apply scan_min_equivariant]; assumption.
 Qed.
 
+(* CONDITIONAL end-to-end form of "reachability probabilities agree within the tolerance": two solved
+   well-formed games on exact rationals; y, y' their values (fixed points of the Bellman equations on the
+   iterated states, equal to the report elsewhere, super-solutions everywhere, within [0,1]); T, T'
+   absorption-time certificates as in C01_error_bound. At every state s at which the two values
+   correspond along pi - for a renamed/reordered description that is every state, by
+   C13_values_equivariant at each horizon - the two reports differ by at most threshold * certificate.
+   Without certificates the claim is false (K1-C13). *)
+Theorem C13_reports_within_tolerance : forall (g g' : game (T:=Q)) (pi : nat -> nat),
+  wf_game qops g -> wf_game qops g' ->
+  (forall i, nth i (g_players g) PR = PR ->
+     nonneg_w (nth i (g_trans g) []) /\ (sumw (nth i (g_trans g) []) <= 1)%Q) ->
+  (forall i, nth i (g_players g') PR = PR ->
+     nonneg_w (nth i (g_trans g') []) /\ (sumw (nth i (g_trans g') []) <= 1)%Q) ->
+  forall fuel fuel' prune prune' sl1 sl1' rs rs' it it',
+  solve_reach_fuel qops fuel g prune = Ok (sl1, rs, it) ->
+  solve_reach_fuel qops fuel' g' prune' = Ok (sl1', rs', it') ->
+  let p := reach_vec qops sl1 in
+  let p' := reach_vec qops sl1' in
+  exists srf srf', reverse_dfs (tlg g) (g_finals g) = Ok srf /\
+                   reverse_dfs (tlg g') (g_finals g') = Ok srf' /\
+  forall (y y' T T' : nat -> Q) (M M' : Q),
+    (forall s, In s srf -> y s = gPhi g y s) -> (forall s, ~ In s srf -> y s = p s) ->
+    (forall i, (0 <= y i <= 1)%Q) -> (forall i, gfin g i = true -> (1 <= y i)%Q) ->
+    (forall i, gfin g i = false -> (gPhi g y i <= y i)%Q) ->
+    (forall s, In s srf' -> y' s = gPhi g' y' s) -> (forall s, ~ In s srf' -> y' s = p' s) ->
+    (forall i, (0 <= y' i <= 1)%Q) -> (forall i, gfin g' i = true -> (1 <= y' i)%Q) ->
+    (forall i, gfin g' i = false -> (gPhi g' y' i <= y' i)%Q) ->
+    (forall s, (1 + B (gkd g) (gtr g) (fun s => mem_nat s srf) T s <= T s)%Q) -> (forall s, (0 <= T s <= M)%Q) ->
+    (forall s, (1 + B (gkd g') (gtr g') (fun s => mem_nat s srf') T' s <= T' s)%Q) -> (forall s, (0 <= T' s <= M')%Q) ->
+    forall s, (y' (pi s) == y s)%Q ->
+      (p s - p' (pi s) <= q_thr * T' (pi s))%Q /\ (p' (pi s) - p s <= q_thr * T s)%Q.
+Proof. exact reports_close. Qed.
+
+(* the report never exceeds ANY super-solution of the game's Bellman equations that is 1 on the final
+   states - in particular never the true value, however the game is written down *)
+Theorem C13_report_below_value : forall (g : game (T:=Q)),
+  wf_game qops g ->
+  (forall i, nth i (g_players g) PR = PR ->
+     nonneg_w (nth i (g_trans g) []) /\ (sumw (nth i (g_trans g) []) <= 1)%Q) ->
+  forall fuel prune sl1 rs it,
+  solve_reach_fuel qops fuel g prune = Ok (sl1, rs, it) ->
+  forall y : nat -> Q,
+  (forall i, (0 <= y i)%Q) ->
+  (forall i, gfin g i = true -> (1 <= y i)%Q) ->
+  (forall i, gfin g i = false -> (gPhi g y i <= y i)%Q) ->
+  forall s, (reach_vec qops sl1 s <= y s)%Q.
+Proof. exact report_below_super. Qed.
+
+(* non-vacuity of C13_reports_within_tolerance: the 0.9-self-loop game and the same game with states 1 and 2
+   exchanged and every row written backwards; values (1,1,1); certificates (12,1,11) and (12,11,1) *)
+Example C13_tolerance_hypotheses_met :
+  wf_game qops k4_game /\ wf_game qops k4r_game /\
+  (exists sl1 rs it, solve_reach_fuel qops 1000 k4_game true = Ok (sl1, rs, it)) /\
+  (exists sl1 rs it, solve_reach_fuel qops 1000 k4r_game true = Ok (sl1, rs, it)) /\
+  reverse_dfs (tlg k4_game) (g_finals k4_game) = Ok [0%nat; 2%nat] /\
+  reverse_dfs (tlg k4r_game) (g_finals k4r_game) = Ok [0%nat; 1%nat] /\
+  (forall s, (k4r_y (k4_pi s) == k4_y s)%Q) /\
+  ((forall s, In s [0%nat; 2%nat] -> k4_y s = gPhi k4_game k4_y s) /\
+   (forall i, (0 <= k4_y i <= 1)%Q) /\ (forall i, gfin k4_game i = true -> (1 <= k4_y i)%Q) /\
+   (forall i, gfin k4_game i = false -> (gPhi k4_game k4_y i <= k4_y i)%Q)) /\
+  ((forall s, In s [0%nat; 1%nat] -> k4r_y s = gPhi k4r_game k4r_y s) /\
+   (forall i, (0 <= k4r_y i <= 1)%Q) /\ (forall i, gfin k4r_game i = true -> (1 <= k4r_y i)%Q) /\
+   (forall i, gfin k4r_game i = false -> (gPhi k4r_game k4r_y i <= k4r_y i)%Q)) /\
+  ((forall s, (1 + B (gkd k4_game) (gtr k4_game) (fun s => mem_nat s [0%nat; 2%nat]) k4_T s <= k4_T s)%Q) /\
+   (forall s, (0 <= k4_T s <= 12)%Q)) /\
+  ((forall s, (1 + B (gkd k4r_game) (gtr k4r_game) (fun s => mem_nat s [0%nat; 1%nat]) k4r_T s <= k4r_T s)%Q) /\
+   (forall s, (0 <= k4r_T s <= 12)%Q)).
+Proof.
+  destruct k4_pair_solved as (A1 & A2 & A3 & A4 & A5).
+  split; [exact k4_wf|]. split; [exact k4r_wf|]. split; [exact A1|]. split; [exact A2|]. split; [exact A3|].
+  split; [exact A4|]. split; [exact A5|]. split; [exact k4_values|]. split; [exact k4r_values|].
+  split; [exact k4_certificate|exact k4r_certificate].
+Qed.
+
 (* non-vacuity: swapping states 1 and 2 of a three-state graph *)
 Example C13_example :
   renaming 3 (fun i => match i with 1 => 2 | 2 => 1 | _ => i end) (fun i => match i with 1 => 2 | 2 => 1 | _ => i end) /\
@@ -79,3 +157,5 @@ Print Assumptions C13_paths_equivariant.
 Print Assumptions C13_bellman_equivariant.
 Print Assumptions C13_values_equivariant.
 Print Assumptions C13_strategies_equivariant.
+Print Assumptions C13_reports_within_tolerance.
+Print Assumptions C13_report_below_value.
